@@ -177,20 +177,29 @@ func (wk *c14worker) run(seq []c14sym, withWatch bool) {
 	key := fmt.Sprintf("w%dk%d", wk.id, wk.n)
 	name := seqName(seq)
 	var watches []*liveWatch
+	var lazy []*liveWatch // consumers that fall behind: they never read and just stop
 	fail := func(sig, format string, a ...any) {
 		msg := fmt.Sprintf("sequence [%s] on a fresh key: ", name) + fmt.Sprintf(format, a...)
 		x.c.DirectViolation(sig, msg, map[string]any{"sequence": name})
 	}
 	open := func(pos int) {
-		for style := 0; style < 2; style++ {
+		nstyles := 2
+		if pos == 0 {
+			nstyles = 3 // plus one lazy consumer per sequence: obtains the channel, never reads, stops
+		}
+		for style := 0; style < nstyles; style++ {
 			w, err := wk.kv.Watch(key)
 			if err != nil {
 				fail("watch-open-failed", "Watch failed: %v", err)
 				return
 			}
 			lw := &liveWatch{w: w, style: style, opened: pos}
-			if style == 0 {
+			if style == 0 || style == 2 {
 				lw.ch = w.Updates()
+			}
+			if style == 2 {
+				lazy = append(lazy, lw)
+				continue
 			}
 			if m := wk.model.latest(key, wk.now); m != nil {
 				lw.expect = append(lw.expect, expOf(m))
@@ -345,9 +354,12 @@ func (wk *c14worker) run(seq []c14sym, withWatch bool) {
 		for _, lw := range watches {
 			lw.w.Stop()
 		}
+		for _, lw := range lazy {
+			lw.w.Stop()
+		}
 		x.mu.Lock()
 		x.watchSeqs++
-		x.watchersOpened += len(watches)
+		x.watchersOpened += len(watches) + len(lazy)
 		x.mu.Unlock()
 	}
 	x.mu.Lock()
